@@ -44,3 +44,25 @@ CLAIMS['C10'] = dict(
        "after the size-limited reader is installed and every created temp file has its removal deferred before anything else can fail (ghost counters, loop invariant); the websocket subscription goroutine lets no panic escape.",
   note=COMMON_NOTE + "net/http, mime/multipart, os, io, encoding/json, gorilla/websocket trusted not to panic on client bytes; stable-field assumption for wsConnection.active/exec; "
        "bytesReader and the websocket message tables are not yet under contract; delivery of exact upload bytes is not decided.")
+
+GOCV = "contract-based deductive verification (gocv: WP/symbolic-execution VCs over go/ast of the real functions incl. panic/defer paths, ghost state, call-site preconditions, frames; SMT-discharged)"
+
+CLAIMS['C03'] = dict(technique=GOCV,
+  text="Gate contracts on the real executor and transports, for every control-flow path: parseQuery stores a document in the cache only after Validate returned no error for that very document and under the text it was parsed from, "
+       "and returns without errors only validated documents; CreateOperationContext returns no error list only if every parameter mutator and context mutator returned nil (ghost flag + loop invariants), the operation was found, "
+       "and variable coercion succeeded, and never returns an empty error list; every transport (POST, GET, GRAPHQL, urlencoded, multipart form, SSE, multipart/mixed, websocket subscribe) calls DispatchOperation only on the no-error path, at most once; "
+       "the interceptor chain is built from the last extension to the first with each wrapper calling its hook once and the earlier chain once; mutators are collected in registration order; "
+       "DispatchOperation/DispatchError invoke the operation/response middleware exactly once.",
+  note=COMMON_NOTE + "gqlparser (parser, validator) and cache implementations behind trusted contracts; frames assumed for user mutators; no thread model: the validator rule-table race and concurrent requests are NOT decided.")
+
+CLAIMS['C07'] = dict(technique=GOCV,
+  text="POST.Do returns the pooled RawParams object to the pool with EVERY field zero (expanded mechanically over all fields of the struct from go/types, so a new field without reset fails) and non-nil on every exit path including panics from callees; "
+       "parseQuery's cache lookups and insertions use exactly the query text as key and it has no access to variables, operation name or headers; only validated documents parsed from that text can come out of the cache.",
+  note=COMMON_NOTE + "sync.Pool and cache implementations trusted; the relational statement (same response as a fresh server) and concurrency are not decided; APQ memory is C15.")
+
+CLAIMS['C09'] = dict(technique=GOCV,
+  text="GET.Do dispatches only when CreateOperationContext returned no error AND the operation it selected (op == opCtx.Operation, by the executor contract and determinism of ForName) is a query, otherwise 406 and nothing dispatched; "
+       "in every HTTP transport WriteHeader is only ever called before any dispatch and a path that dispatched never calls WriteHeader (execution started => 200); on CreateOperationContext errors the status comes from statusFor/statusForGraphQLResponse "
+       "chosen by the negotiated content type (422/400 for protocol errors, else 200); content negotiation without explicit header yields one of the two GraphQL media types, empty Accept => application/json; "
+       "Server.getTransport returns the first supporting transport; ServeHTTP lets no panic escape and answers 422 once on a recovered panic, 400 without transport.",
+  note=COMMON_NOTE + "executor interface contract assumed here and proved under C03; header map contents and JSON body validity not decided.")
